@@ -9,8 +9,10 @@ func init() {
 // VF_C12_unmarshal: the custom YAML unmarshalers return (error or value) on
 // every shape the decoder can hand them, and when the decoder itself fails.
 func VF_C12_unmarshal() {
-	v := vfAny("node", 2)
-	if vfBool("structured") {
+	var v interface{}
+	if !vfBool("structured") {
+		v = vfAny("node", 2)
+	} else {
 		// a mapping with the keys the Tag unmarshaler looks at, of arbitrary kinds
 		m := map[string]interface{}{}
 		if vfBool("has.name") {
